@@ -21,6 +21,8 @@ struct World::TState
     {
         std::string title;
         int64_t parent = 0;
+        bool persisted = true, exported = true;
+        std::chrono::system_clock::time_point edited{};
     };
     std::map<int64_t, PL> lists;
     std::map<int64_t, std::vector<int64_t>> order;  // parent -> ordered children
